@@ -18,6 +18,11 @@ mod probe_calendars;
 mod probe_linalg;
 mod probe_fx;
 
+/// counters filled by the probes that report coverage (comparisons made, distinct cases built, one case written out)
+pub static EVALS: std::sync::atomic::AtomicUsize = std::sync::atomic::AtomicUsize::new(0);
+pub static CASES: std::sync::atomic::AtomicUsize = std::sync::atomic::AtomicUsize::new(0);
+pub static SAMPLE: std::sync::Mutex<String> = std::sync::Mutex::new(String::new());
+
 fn js(s: &str) -> String {
     s.replace('\\', "\\\\").replace('"', "\\\"").replace('\n', " ").replace('\t', " ")
 }
@@ -409,7 +414,13 @@ fn main() {
             let func = args.get(2).map(|s| s.as_str()).unwrap_or("");
             let found = probe_dateroll(func) || probe_months(func) || probe_dual::probe(func) || probe_curves::probe(func) || probe_calendars::probe(func) || probe_linalg::probe(func) || probe_fx::probe(func);
             if !found {
-                println!("{{\"probe\":\"{}\",\"result\":\"no failing input found\"}}", func);
+                println!(
+                    "{{\"probe\":\"{}\",\"result\":\"no failing input found\",\"evaluations\":{},\"cases\":{},\"sample\":\"{}\"}}",
+                    func,
+                    EVALS.load(std::sync::atomic::Ordering::Relaxed),
+                    CASES.load(std::sync::atomic::Ordering::Relaxed),
+                    js(&SAMPLE.lock().unwrap())
+                );
             }
         }
         _ => {
